@@ -934,8 +934,9 @@ class ComposerBinary(ComposerBase):
 
     def compose_ssh_mpint(self, value):
         negative = value < 0
-        length = value.bit_length() // 32
-        if value.bit_length() % 32:
+        bit_length = (~value).bit_length() + 1 if negative else value.bit_length()
+        length = bit_length // 32
+        if bit_length % 32:
             length += 1
 
         mpint_bytes = self._compose_mpint(value, length, self.byte_order)
